@@ -223,3 +223,64 @@ func DiffPosition(gw, ref *J) []string {
 	p := find(gw, ref, []string{})
 	return p
 }
+
+// scopedHopFeature: see Features.ScopedHop.
+func (c *Case) scopedHopFeature() bool {
+	sup := c.Cfg.Super
+	frag := map[string]*FragDef{}
+	for _, fd := range c.Op.Frags {
+		frag[fd.Name] = fd
+	}
+	hops := map[string]bool{} // response paths of entity hops selected below an interface-typed position
+	var walk func(static, typ string, sels []*Sel, path string, depth int)
+	walk = func(static, typ string, sels []*Sel, path string, depth int) {
+		if depth > 60 {
+			return
+		}
+		td := sup.Type(typ)
+		for _, s := range sels {
+			switch s.Kind {
+			case SField:
+				if td == nil || s.Name == "__typename" || td.Kind == KUnion {
+					continue
+				}
+				fd := td.Field(s.Name)
+				if fd == nil {
+					continue
+				}
+				key := s.Name
+				if s.Alias != "" {
+					key = s.Alias
+				}
+				p := path + "." + key
+				if st := sup.Type(static); st != nil && st.Kind == KInterface && st.Field(s.Name) != nil && c.Cfg.isEntity(fd.Type.Base()) {
+					hops[p] = true
+				}
+				if len(s.Sels) > 0 {
+					walk(fd.Type.Base(), fd.Type.Base(), s.Sels, p, depth+1)
+				}
+			case SInline:
+				on := s.On
+				if on == "" {
+					on = typ
+				}
+				walk(static, on, s.Sels, path, depth+1)
+			case SSpread:
+				if fd := frag[s.Name]; fd != nil {
+					walk(static, fd.On, fd.Sels, path, depth+1)
+				}
+			}
+		}
+	}
+	walk(sup.Query, sup.Query, c.Op.Sels, "", 0)
+	if len(hops) == 0 {
+		return false
+	}
+	combos := c.CondCombos()
+	for p := range hops {
+		if len(combos[p[1:]]) >= 2 {
+			return true
+		}
+	}
+	return false
+}
